@@ -417,6 +417,45 @@ fn scenario(name: &str) {
             }
             outcome(format!("S13b -> {:?} then {:?}", r1, got));
         }
+        // an earlier session that manages its own timer around next_solution (the documented use of
+        // start_query_timer / cancel_timer), cancelled or left armed; then a later next_solution session
+        "S16" | "S16b" => {
+            set_menu(&[0, 700]);
+            let timer = suiron::start_query_timer(1000);
+            let qa = Rc::new(suiron::parse_query("p($Z)").unwrap());
+            let sn_a = suiron::make_base_node(Rc::clone(&qa), &kb);
+            let mut first = vec![];
+            while let Some(ss) = suiron::next_solution(Rc::clone(&sn_a)) {
+                first.push(format!("{}", qa.replace_variables(&ss)));
+                if first.len() > 5 {
+                    break;
+                }
+            }
+            // S16b: never cancelled, it fires a second after it was started (the handle is only dropped
+            // once all observations are made)
+            let mut keep = Some(timer);
+            if name == "S16" {
+                suiron::cancel_timer(keep.take().unwrap());
+            }
+            set_menu(&[0]);
+            clock::advance_by(400);
+            let qb = Rc::new(suiron::parse_query("s($W)").unwrap());
+            let sn_b = suiron::make_base_node(Rc::clone(&qb), &kb);
+            set_menu(&[0, 700]);
+            let mut got = vec![];
+            for _ in 0..4 {
+                match suiron::next_solution(Rc::clone(&sn_b)) {
+                    Some(ss) => got.push(format!("{}", qb.replace_variables(&ss))),
+                    None => break,
+                }
+            }
+            set_menu(&[0]);
+            if got != vec!["s(1)".to_string(), "s(2)".to_string()] {
+                violation("C22", &format!("{}:session-after-user-timer-differs", name), format!("after a session with its own query timer (answers {:?}), a query built afterwards and run with next_solution returned {:?} instead of [s(1), s(2)]", first, got));
+            }
+            outcome(format!("{} -> {:?} then {:?}", name, first, got));
+            drop(keep);
+        }
         // a slow search with a cheap later clause: whatever a truncated search still finds is not an answer prefix
         "S14" => {
             let k_answers = ["$Z = a", "$Z = b", "$Z = c", "$Z = z"];
